@@ -5,9 +5,13 @@ package main
 // key the columns that were not supplied must keep their stored values whatever the rule.
 
 import (
+	"encoding/json"
 	"fmt"
 	"math/rand"
 	"sort"
+	"strings"
+
+	"gorm.io/gorm"
 )
 
 func c16Subset(rng *rand.Rand, from []int, min, max int) []int {
@@ -129,4 +133,146 @@ func c16PartialBranch(p *C16P) string {
 		n = fmt.Sprint("x", len(p.Fin.Many))
 	}
 	return p.Fin.K + n + restr + "/" + c + "-" + rule
+}
+
+// ---- suite: DryRun SQL of the UpdateAll expansion vs Model.Upsert.updateAllIns ---------------------------------
+//
+// For generated sources (map key sets, Select / Omit lists, structs with zero / non-zero database-default columns) the
+// statement gorm would send (Session{DryRun:true}) is parsed: the INSERT column list must be the model's `listed` set
+// and the DO UPDATE SET list the model's UpdateAll expansion — in particular SET ⊆ INSERT columns.
+
+func c16ParseUpsertSQL(sql string) (ins []int, set [][2]int, ok bool) {
+	idx := func(name string) int {
+		name = strings.Trim(strings.TrimSpace(name), "`\"")
+		for i, c := range c16Cols {
+			if c == name {
+				return i
+			}
+		}
+		return -1
+	}
+	a := strings.Index(sql, "(")
+	b := strings.Index(sql, ")")
+	if a < 0 || b < a {
+		return nil, nil, false
+	}
+	for _, n := range strings.Split(sql[a+1:b], ",") {
+		c := idx(n)
+		if c < 0 {
+			return nil, nil, false
+		}
+		ins = append(ins, c)
+	}
+	sort.Ints(ins)
+	set = [][2]int{}
+	if k := strings.Index(sql, "DO UPDATE SET "); k >= 0 {
+		rest := sql[k+len("DO UPDATE SET "):]
+		if r := strings.Index(rest, " RETURNING"); r >= 0 {
+			rest = rest[:r]
+		}
+		for _, asg := range strings.Split(rest, ",") {
+			parts := strings.SplitN(asg, "=", 2)
+			if len(parts) != 2 {
+				return nil, nil, false
+			}
+			c := idx(parts[0])
+			if c < 0 {
+				return nil, nil, false
+			}
+			lit := 1 // a bound literal (`?`): the auto-update time
+			if strings.Contains(parts[1], "excluded") {
+				lit = -1
+			}
+			set = append(set, [2]int{c, lit})
+		}
+		sort.Slice(set, func(i, j int) bool { return set[i][0] < set[j][0] })
+	}
+	return ins, set, true
+}
+
+type C16SQLCase struct {
+	Soft bool    `json:"soft"`
+	Step []C16St `json:"steps"`
+	Fin  C16F    `json:"fin"`
+}
+
+func c16SQLSuite(r *Result, rng *rand.Rand, tier string) {
+	n := 3000
+	if tier != "quick" {
+		n = 30000
+	}
+	e := c16Open()
+	dry := e.db.Session(&gorm.Session{DryRun: true})
+	var cases []*C16SQLCase
+	var sqls []string
+	var ops [][]interface{}
+	for i := 0; i < n && !expired(); i++ {
+		p := &C16P{Soft: rng.Intn(2) == 0}
+		for {
+			p.Steps = nil
+			c16GenPartial(rng, p)
+			if p.Fin.K == "cmap" || p.Fin.K == "create" {
+				break
+			}
+		}
+		// always under UpdateAll
+		var steps []C16St
+		for _, s := range p.Steps {
+			if s.K != "oc" {
+				steps = append(steps, s)
+			}
+		}
+		steps = append(steps, C16St{K: "oc", Rule: &C16R{Kind: "all"}})
+		if rng.Intn(3) == 0 {
+			steps = append(steps, c16GenDeriv(rng))
+		}
+		_, res := e.finisher(e.chain(dry, p.Soft, steps), p.Soft, &p.Fin)
+		_, sel, omit := c16StepsJ(steps)
+		cases = append(cases, &C16SQLCase{p.Soft, steps, p.Fin})
+		sqls = append(sqls, res.Statement.SQL.String())
+		ops = append(ops, []interface{}{"c16.cols", c16Kinds(p.Soft), p.Fin.J(sel, omit)[1], p.Fin.Row})
+		if p.Fin.K == "create" && len(sel)+len(omit) == 0 {
+			ops[len(ops)-1][2] = []interface{}{"struct", []int{}, []int{}}
+		}
+	}
+	ans, err := AskLean(ops)
+	if err != nil {
+		r.Violate(Violation{Kind: "correspondence", Suite: "sql", Input: "batch", Observed: err.Error(), Expected: "driver answers"})
+		return
+	}
+	for i, c := range cases {
+		var m struct {
+			Ins []int           `json:"ins"`
+			Set [][]interface{} `json:"set"`
+		}
+		_ = json.Unmarshal(ans[i], &m)
+		exp := [][2]int{}
+		for _, a := range m.Set {
+			col := int(a[0].(float64))
+			if a[1] == nil {
+				exp = append(exp, [2]int{col, -1})
+			} else {
+				exp = append(exp, [2]int{col, 1})
+			}
+		}
+		ins, set, ok := c16ParseUpsertSQL(sqls[i])
+		r.CorrCompared++
+		r.Case("sql", canon(c), len(set) > 0)
+		r.H("sql.source", c.Fin.K)
+		r.H("sql.insert_cols", fmt.Sprint(len(ins)))
+		r.H("sql.set_cols", fmt.Sprint(len(set)))
+		if !ok || canon(ins) != canon(m.Ins) || canon(set) != canon(exp) {
+			r.Violate(Violation{Kind: "correspondence", Suite: "sql", Input: c,
+				Observed: map[string]interface{}{"sql": sqls[i], "ins": ins, "set": set},
+				Expected: map[string]interface{}{"ins": m.Ins, "set": exp},
+				Note:     "DryRun SQL of an UpdateAll upsert vs Model.Upsert listed / updateAllIns (INSERT column list, DO UPDATE SET list)"})
+		}
+	}
+}
+
+func init() {
+	register("C16", c16SQLSuite)
+	replayers["C16/sql"] = func(r *Result, input json.RawMessage) {
+		r.Note("sql correspondence cases are re-derived by the suite; see the e2e replay for a failing input")
+	}
 }
